@@ -10,7 +10,7 @@ FILES = ["cspuz/problem_serializer.py", "cspuz/puzzle/util.py", "cspuz/puzzle/nu
 
 def conditions(tier):
     q = tier == "quick"
-    T = 90 if q else 900
+    T = 150 if q else 1200
     cs = []
     gshapes = [(1, 2), (2, 1), (2, 2)] if q else [(1, 1), (1, 2), (2, 1), (1, 3), (2, 2), (2, 3), (3, 2)]
     for codec in ("nurikabe", "sudoku", "nurimisaki", "slitherlink", "masyu"):
